@@ -1,4 +1,5 @@
 import PK.Properties.C07
+import PK.Properties.C07Live
 #print axioms PK.phaseInv_step
 #print axioms PK.C07_init
 #print axioms PK.C07_phase_order
@@ -6,3 +7,11 @@ import PK.Properties.C07
 #print axioms PK.C07_exclusive_pair
 #print axioms PK.C07_auto_ante
 #print axioms PK.C07_refusal_is_stop
+#print axioms PK.sv_frame
+#print axioms PK.opShow_spec
+#print axioms PK.showStreet_step
+#print axioms PK.beginShowOk_step
+#print axioms PK.live_step
+#print axioms PK.C07_show_in_street
+#print axioms PK.C07_never_stuck
+#print axioms PK.C07_exactly_one
